@@ -114,7 +114,7 @@ func cmdCheck(args []string) int {
 		fmt.Fprintln(os.Stderr, "spec error:", err)
 		return reportBuildFailure(prop, tier, seed, t0, "contract files do not parse: "+err.Error())
 	}
-	timeout := 10.0
+	timeout := 20.0 // quick tier: 20 s per obligation (the slowest discharged obligation needs about 9 s on this machine)
 	if tier == "thorough" {
 		timeout = 60
 	}
@@ -612,6 +612,34 @@ func cmdCheck(args []string) int {
 			samples = append(samples, map[string]interface{}{"obligation": name, "what": a.insts[0].Desc, "solver": a.insts[0].Solver, "status": a.status})
 		}
 	}
+	// the slowest single solver calls of this run (cached results carry the time of the original call):
+	// an obligation that needs a large share of the per-obligation budget is the one most likely to
+	// turn into a spurious "undecided" on a slower machine
+	type slowOb struct {
+		name string
+		t    float64
+	}
+	var slow []slowOb
+	for _, r := range results {
+		for _, o := range r.Obls {
+			if o.Time >= 2 {
+				slow = append(slow, slowOb{o.Name, o.Time})
+			}
+		}
+	}
+	sort.Slice(slow, func(i, j int) bool { return slow[i].t > slow[j].t })
+	var slowest []map[string]interface{}
+	for i, so := range slow {
+		if i >= 8 {
+			break
+		}
+		slowest = append(slowest, map[string]interface{}{"obligation": so.name, "time_s": so.t})
+	}
+	if os.Getenv("VERIF_SHOW_SLOW") != "" {
+		for _, so := range slowest {
+			fmt.Printf("SLOW %v\n", so)
+		}
+	}
 	solverTimes := map[string]interface{}{}
 	e.solver.mu.Lock()
 	for k, v := range e.solver.stats {
@@ -632,6 +660,8 @@ func cmdCheck(args []string) int {
 			"contract_clause_obligations": len(clauseNames),
 			"discharged_by_backend":       solverBy,
 			"solver_stats_this_run":       solverTimes,
+			"slowest_solver_calls":        slowest,
+			"per_obligation_budget_s":     timeout,
 			"samples":                     samples,
 			"known_findings":              knownHit,
 			"undecided_allowed":           undecidedAllowed,
